@@ -80,14 +80,67 @@ func c09aSequential(p c09aParam) string {
 	return strings.Join(res, " ")
 }
 
+// c09aControl runs the sequential calls (the reference of a job) twice on the test goroutine. fail != "": the tree
+// under test gives no reference (the calls panic, call log.Fatal, or do not answer the same twice): the caller reports
+// that as a violation and skips the job.
+func c09aControl(p c09aParam) (want, class, fail string) {
+	run := func() (out, msg string) {
+		defer func() {
+			if e := recover(); e != nil {
+				msg = fmt.Sprintf("%v (%T)", e, e) // vsched's exit sentinel {status} = log.Fatal / os.Exit of the implementation
+			}
+		}()
+		return c09aSequential(p), ""
+	}
+	a, msg := run()
+	if msg != "" {
+		return "", "sequential-calls-panic", "the calls made one after the other on the test goroutine end with: " + msg
+	}
+	b, msg := run()
+	if msg != "" {
+		return "", "sequential-calls-panic", "the calls made one after the other a second time end with: " + msg
+	}
+	if a != b {
+		return "", "sequential-calls-not-deterministic", "the same sequential calls answer " + a + " and then " + b
+	}
+	return a, "", ""
+}
+
+// explore runs vsched.Explore. div != "": the explorer found that one schedule, executed twice, does not give the same
+// execution (its own "replay ... diverged" panics): the code under test keeps state from one execution to the next or is
+// not deterministic. That is a verdict on the tree (reported by the caller), not an engine error; the explorer is not
+// used any further by this shard.
+func c09aExplore(cfg vsched.Config, body func(x *vsched.Exec)) (st *vsched.Stats, div string) {
+	defer func() {
+		if e := recover(); e != nil {
+			s, ok := e.(string)
+			if !ok || !strings.HasPrefix(s, "vsched: replay") {
+				panic(e)
+			}
+			st, div = nil, s
+		}
+	}()
+	return vsched.Explore(cfg, body), ""
+}
+
 func TestVerifC09A(t *testing.T) {
 	log.SetOutput(io.Discard)
 	log.StandardLogger().ExitFunc = vsched.Exit
 	r := verifkit.New("C09")
 	defer r.Write()
 
+	// check: the judge of a job, built from its control run; nil: no reference (reported here), the job is skipped
 	check := func(p c09aParam) func(x *vsched.Exec) string {
-		want := c09aSequential(p)
+		want, class, fail := c09aControl(p)
+		if fail != "" {
+			key := p.Kernel + "/control-run/" + class
+			if !p.OwnBuf {
+				key += ":nil-buffer"
+			}
+			r.Eval(1)
+			r.Violate(key, fmt.Sprintf("%s pairs=%v maxError=%d: %s", p.Kernel, p.Pairs, p.Bound, fail), p)
+			return nil
+		}
 		return func(x *vsched.Exec) string {
 			if x.Outcome() != "" {
 				return x.Outcome() + "|" + x.Detail()
@@ -107,6 +160,9 @@ func TestVerifC09A(t *testing.T) {
 		found := 0
 		cfg := vsched.Config{Name: p.Kernel, DelayBounding: true, Preemptions: 1, Policy: p.Policy, Horizon: 50000, MaxExec: 100000}
 		chk := check(p)
+		if chk == nil {
+			return
+		}
 		cfg.Check = func(x *vsched.Exec) string {
 			m := chk(x)
 			if m != "" {
@@ -114,7 +170,11 @@ func TestVerifC09A(t *testing.T) {
 			}
 			return m
 		}
-		st := vsched.Explore(cfg, func(x *vsched.Exec) { x.Obs = c09aBody(p) })
+		st, div := c09aExplore(cfg, func(x *vsched.Exec) { x.Obs = c09aBody(p) })
+		if div != "" {
+			r.Violate(p.Kernel+"/control-run/execution-not-reproducible", div, p)
+			return
+		}
 		r.Eval(st.Executions)
 		if found > 0 {
 			r.Violate("concurrent-calls/replay", fmt.Sprintf("%d executions differ from the sequential answers", found), p)
@@ -162,16 +222,29 @@ func TestVerifC09A(t *testing.T) {
 		if r.Expired() {
 			break
 		}
+		r.Count("jobs_submitted", 1)
+		chk := check(p)
+		if chk == nil {
+			continue
+		}
 		if k < 2 {
-			r.Sample(map[string]any{"param": p, "sequential": c09aSequential(p)})
+			if want, _, fail := c09aControl(p); fail == "" {
+				r.Sample(map[string]any{"param": p, "sequential": want})
+			}
 		}
 		bound := 1
 		if verifkit.Thorough() {
 			bound = 2
 		}
 		cfg := vsched.Config{Name: p.Kernel, DelayBounding: p.Mode == "delay", Full: p.Mode == "full", Preemptions: bound, Policy: p.Policy,
-			Horizon: 50000, MaxExec: 60000, Expired: r.Expired, Check: check(p)}
-		st := vsched.Explore(cfg, func(x *vsched.Exec) { x.Obs = c09aBody(p) })
+			Horizon: 50000, MaxExec: 60000, Expired: r.Expired, Check: chk}
+		st, div := c09aExplore(cfg, func(x *vsched.Exec) { x.Obs = c09aBody(p) })
+		if div != "" {
+			r.Eval(1)
+			r.Violate(p.Kernel+"/control-run/execution-not-reproducible", fmt.Sprintf("%s pairs=%v maxError=%d own_buffers=%v mode=%s policy=%d: the same schedule executed twice does not give the same execution: %s", p.Kernel, p.Pairs, p.Bound, p.OwnBuf, p.Mode, p.Policy, div), p)
+			r.Cap("executions of the tree under test are not reproducible: the exploration of this shard stops")
+			return
+		}
 		r.Eval(st.Executions)
 		r.Trace(st.Executions)
 		r.Trans(st.Points)
@@ -206,5 +279,6 @@ func TestVerifC09A(t *testing.T) {
 			r.Violate(key, fmt.Sprintf("%s pairs=%v maxError=%d own_buffers=%v mode=%s policy=%d schedule=%v: %s", p.Kernel, p.Pairs, p.Bound, p.OwnBuf, p.Mode, p.Policy, v.Choices, parts[1]), q)
 		}
 	}
-	r.RequireNonVacuous("outcome_completed")
+	// guard on what the harness did (outcome_* depend on how the executions of the tree under test end)
+	r.RequireNonVacuous("jobs_submitted")
 }
